@@ -130,3 +130,7 @@ func VerifIte(c bool, a, b int) int {
 // VerifClockAdvance moves the clock seen by time.Now forward by ms milliseconds
 // (executor: the symbolic clock; native replay: sleeps).
 func VerifClockAdvance(ms int64) { time.Sleep(time.Duration(ms) * time.Millisecond) }
+
+// VerifProvide hands the executor an environment object (e.g. the net.Listener that the stubbed
+// ListenConfig.Listen returns). Native builds use the real environment.
+func VerifProvide(key string, v any) {}
